@@ -368,9 +368,10 @@ func sharedWork(file []byte) {
 	var others [][]byte
 	if file != nil {
 		prof := gen.SimpleProfile(800, "race", true, 3)
+		profW := gen.SimpleProfile(1300, "race webp", false, 4) // another profile: v4, other tags, other description
 		j, _ := gen.BuildJPEG([]gen.JSeg{gen.SOI(), gen.JFIF(), gen.ICCSeg(1, 1, prof), gen.DQT(0),
 			gen.SOF(0xC0, 8, 21, 34, gen.StdComps(3, 0x22)), gen.DHT(0, 0), gen.SOS(3, gen.EntropyBytes(60, 5)), gen.EOI()})
-		w, _ := gen.BuildWebP([]gen.WChunk{gen.VP8X(gen.VP8XICC, 55, 66), gen.WC("ICCP", prof), gen.VP8(55, 66, 0, 0, gen.VP8Body(40))}, -1)
+		w, _ := gen.BuildWebP([]gen.WChunk{gen.VP8X(gen.VP8XICC, 55, 66), gen.WC("ICCP", profW), gen.VP8(55, 66, 0, 0, gen.VP8Body(40))}, -1)
 		others = [][]byte{file, j, w, gen.Payload(300, 1, false),
 			// streams cut inside a structure (the loaders' error paths run concurrently too)
 			j[:len(j)/2], j[:30], w[:len(w)/2], file[:len(file)/3], j[:len(j)-3]}
@@ -436,6 +437,7 @@ func sharedWork(file []byte) {
 	// the CALLER's goroutines each transform their own band (full-width rows, or columns) of images
 	// they share: every call may touch its own band only, whatever the image types
 	bandWork()
+	crowdWork()
 	var wg sync.WaitGroup
 	for k := 0; k < 4; k++ {
 		wg.Add(1)
@@ -450,7 +452,20 @@ func sharedWork(file []byte) {
 			_ = a.Apply(ciexyz.Color{X: 0.3, Y: 0.4, Z: 0.5})
 			if file != nil {
 				for q := 0; q < len(others); q++ {
-					autometa.Load(bytes.NewReader(others[(k+q)%len(others)]))
+					idx := (k + q) % len(others)
+					md, _, _ := autometa.Load(bytes.NewReader(others[idx]))
+					// every caller parses the profile of ITS file and reads ITS description
+					if md == nil {
+						continue
+					}
+					if p, err := md.ICCProfile(); err == nil && p != nil {
+						d, derr := p.Description()
+						want := map[int]string{1: "race", 2: "race webp"}[idx]
+						if want != "" && (derr != nil || d != want) {
+							fmt.Printf("VALUE-MISMATCH target=icc.Profile.Description(concurrent loads): file %d gives %q (%v), alone it gives %q\n", idx, d, derr, want)
+							sharedWorkFailed = true
+						}
+					}
 				}
 			}
 		}(k)
@@ -473,6 +488,52 @@ func newImg(kind int, r image.Rectangle) subImager {
 		return image.NewRGBA(r)
 	}
 	return image.NewNRGBA64(r)
+}
+
+// crowdWork: many callers at once, each asking for a large parallelism (together far more workers
+// than processors): every call returns, with the result it has when it runs alone.
+func crowdWork() {
+	r := image.Rect(0, 0, 6, 70)
+	src := image.NewNRGBA64(r)
+	for y := 0; y < 70; y++ {
+		for x := 0; x < 6; x++ {
+			src.Set(x, y, color.NRGBA64{R: uint16(x*9000 + y), G: uint16(y * 900), B: uint16((x + y) * 800), A: 65535})
+		}
+	}
+	ref := image.NewRGBA64(r)
+	srgb.LineariseImage(ref, src, 1)
+	const callers = 24
+	outs := make([]*image.RGBA64, callers)
+	done := make(chan struct{})
+	go func() {
+		var wg sync.WaitGroup
+		for rep := 0; rep < 6; rep++ {
+			for c := 0; c < callers; c++ {
+				wg.Add(1)
+				go func(c int) {
+					defer wg.Done()
+					outs[c] = image.NewRGBA64(r)
+					srgb.LineariseImage(outs[c], src, []int{24, 48, 17, 64}[c%4])
+				}(c)
+			}
+			wg.Wait()
+		}
+		close(done)
+	}()
+	select {
+	case <-done:
+	case <-time.After(40 * time.Second):
+		fmt.Printf("VALUE-MISMATCH target=srgb.LineariseImage(crowd): %d concurrent calls with parallelism 17..64 on a 6x70 image did not all return within 40 s (alone each returns in milliseconds)\n", callers)
+		os.Stdout.Sync()
+		os.Exit(3) // the blocked calls cannot be abandoned: whatever they hold stays held
+	}
+	for c, o := range outs {
+		if !bytes.Equal(o.Pix, ref.Pix) {
+			fmt.Printf("VALUE-MISMATCH target=srgb.LineariseImage(crowd): caller %d's result differs from the call executed alone\n", c)
+			sharedWorkFailed = true
+			return
+		}
+	}
 }
 
 func bandWork() {
